@@ -43,7 +43,7 @@ def bounceOp (args : List String) : String :=
       let c ← cl
       let h ← if host == "-" then some none else (hx host).map some
       let x : Bounce.Input := {
-        sender := ← hx sender, rcpts := ← hx rcpts,
+        sender := ← hx sender, rcpts := Bounce.joinRcpts (← (if rcpts == "-" then some [] else (rcpts.splitOn ",").mapM hx)),
         info := { client := c, host := h, code := ← hx code, message := ← hx message },
         clientName := ← hx cname, clientIp := ← hx cip, protocol := ← hx proto, boundary := ← hx boundary,
         headersOnly := ho == "1", origHeader := ← hx oh, origBody := ← hx ob }
